@@ -29,6 +29,9 @@ def run(repo, rep, tier):
         "UserFcn.__call__ compiles once (hasattr guard) and passes all arguments through. Narrow: what string expressions "
         "evaluate to is not decided."
     )
+    rep.extra["explanation"] += " " + (
+        'Later additions: exact comparators only and the memo key stored after the wrapped call returned (R17.2); a default name derived by the constructor does not block a first explicit name (R17.3); the eval namespace is fresh per call and record fields take precedence over pre-loaded names (R17.4).'
+    )
     rep.not_decided += [
         "that a string expression evaluates like the equivalent Python function (namespace construction is run-time)",
         "what cached results are for equal-but-not-identical arguments",
